@@ -934,6 +934,11 @@ const MAX_EPOCH_DAYS: i32 = 10i32.pow(8) + 1;
 #[inline]
 /// Utility function to determine if a `DateTime`'s components create a `DateTime` within valid limits
 fn iso_dt_within_valid_limits(date: IsoDate, time: &IsoTime) -> bool {
+    // NOTE: The date equations below are only defined (and free of overflow) around the
+    // supported range; any year outside of it is outside of the limits.
+    if !(-271_821..=275_760).contains(&date.year) {
+        return false;
+    }
     if utils::epoch_days_from_gregorian_date(date.year, date.month, date.day).abs() > MAX_EPOCH_DAYS
     {
         return false;
